@@ -1,9 +1,98 @@
--- line-protocol handler of property C03 (stub: nothing modelled yet)
+-- line-protocol handler of property C03 (proof integrity).
+-- Modelled op (compared with the implementation):
+--   chan <field> <hasher> <AirDesc line> <proof bytes hex>
+--       `Proof::from_bytes` (Serde.proof.dec, C12) followed by the sub-structure parse of
+--       `VerifierChannel::new` (`channelParse` of Winter/Model/VerifierChecks.lean) with the parameters the
+--       generic AIR derives from the proof's own context and the description (protocol glue of C01):
+--       `noparse` | `panic` | `err:<stage>` | `ok roots=.. fri=.. rows=.. crow=.. rem=.. layers=.. lvals=.. ood=.. evals=..`
+-- The mutation families (`flips`, `bytes`, `fields`, `resize`, `reorder`, `remainder`, `partitions`,
+-- `nonces`, `extras`) run the real verifier and are judged by the harness's oracle; the model answers `-`.
 import Winter.Drv.Util
+import Winter.Model.VerifierChecks
+import Winter.Model.Protocol
 
 namespace Drv.C03
+open Model Model.VerifierChecks
 
-def handle (_toks : List String) : String := "-"
+def fieldOf (s : String) : Option FieldImpl :=
+  if s = "f64" then some F64.impl else if s = "f62" then some F62.impl else if s = "f128" then some F128.impl else none
+
+def digestOf (s : String) : Option (Serde.Codec (List Nat)) :=
+  if s = "blake3_256" ∨ s = "sha3_256" then some (Serde.byteDigest 32)
+  else if s = "blake3_192" then some (Serde.byteDigest 24)
+  else if s = "rp64_256" ∨ s = "rpjive64_256" then some Serde.elemDigest64
+  else if s = "rp62_248" then some Serde.elemDigest62
+  else none
+
+/-- `base[.cycle]*` of a constraint `deg:expr` -/
+def degreeOf (s : String) : Option Protocol.Degree :=
+  match s.splitOn ":" with
+  | d :: _ =>
+    match (d.splitOn ".").mapM parseNat with
+    | some (b :: cs) => some { base := b, cycles := cs }
+    | _ => none
+  | _ => none
+
+structure DescDims where
+  exemptions : Nat := 1
+  mainDegs : List Protocol.Degree := []
+  auxDegs : List Protocol.Degree := []
+  lagrange : Bool := false
+
+/-- the fields of a description line that determine the dimensions of the proof's blocks -/
+def dimsOf (line : String) : Option DescDims :=
+  let step (acc : Option DescDims) (field : String) : Option DescDims :=
+    match acc with
+    | none => none
+    | some d =>
+      match field.splitOn "=" with
+      | k :: v :: _ =>
+        if k = "e" then (parseNat v).map fun x => { d with exemptions := x }
+        else if k = "t" then ((nonEmpty (v.splitOn ",")).mapM degreeOf).map fun x => { d with mainDegs := x }
+        else if k = "u" then ((nonEmpty (v.splitOn ",")).mapM degreeOf).map fun x => { d with auxDegs := x }
+        else if k = "x" then
+          match (v.splitOn ".").mapM parseNat with
+          | some [_, _, l] => some { d with lagrange := l ≠ 0 }
+          | _ => none
+        else some d
+      | _ => some d
+  (nonEmpty (line.splitOn ";")).foldl step (some {})
+
+def dots (l : List Nat) : String := ".".intercalate (l.map toString)
+
+def summary (c : ParsedChannel) : String :=
+  let rows := (c.traceOpenings.map fun o => o.rows.length).sum
+  s!"ok roots={c.traceRoots.length} fri={c.friRoots.length} rows={rows} crow={c.constraintOpening.rows.length} rem={c.remainder.length} layers={c.friLayers.length} lvals={dots (c.friLayers.map fun l => (l.rows.map List.length).sum)} ood={c.oodCurrent.length} evals={c.oodEvals.length}"
+
+def handle (toks : List String) : String :=
+  match toks with
+  | ["chan", f, h, desc, bytes] =>
+    match fieldOf f, digestOf h, dimsOf desc, unhex bytes with
+    | some F, some dg, some dims, some bs =>
+      match Serde.proof.dec bs with
+      | .ok (p, _) =>
+        let ti := p.context.traceInfo
+        let o := p.context.options
+        match Protocol.glue ti.length ⟨o.numQueries, o.blowup, o.grinding, o.folding, o.remDeg⟩ dims.exemptions
+            ti.main ti.aux ti.rands dims.mainDegs dims.auxDegs with
+        | .panic => "panic"
+        | .ok g =>
+          let cfg : ChanCfg := {
+            F := F, ext := o.fieldExt, digest := dg, numSegments := ti.numSegments,
+            mainWidth := ti.main, auxWidth := ti.aux, constraintWidth := g.columns,
+            ldeLog := Nat.log2 g.ldeDomain, numFriLayers := g.layers, folding := o.folding,
+            lagrangeLog := if dims.lagrange then some (Nat.log2 ti.length) else none }
+          match channelParse cfg p with
+          | .ok c => summary c
+          | .err stage => "err:" ++ stage
+          | .panic => "panic"
+      | _ => "noparse"
+    | _, _, _, _ => "bad-op"
+  | "chan" :: _ => "bad-op"
+  | op :: _ =>
+    if ["flips", "bytes", "fields", "resize", "reorder", "remainder", "partitions", "nonces", "extras"].contains op then "-"
+    else "bad-op"
+  | [] => "bad-op"
 
 end Drv.C03
 
